@@ -450,6 +450,10 @@ class WorkerPool:
     running_workers: set[courier_utils.CourierClient] = set()
     running_total, finished_cnt, timeout_cnt = 0, 0, 0
     batch_cnt = 0
+    # The generator results of a submission are only handed over once it is seen
+    # finished below, a submission that is given up (and retried) at the same
+    # moment its worker answers must not deliver its result a second time.
+    result_queues: dict[Any, queue.SimpleQueue[Any]] = {}
 
     def iterate():
       nonlocal batch_cnt, running_total, finished_cnt, timeout_cnt
@@ -475,9 +479,10 @@ class WorkerPool:
             logging.info(
                 'chainable: %s', f'submitting task to worker {worker.address}'
             )
+            task_result_queue = queue.SimpleQueue()
             aiter_until_complete = _iterate_until_complete(
                 worker.async_iterate(
-                    task, generator_result_queue=generator_result_queue
+                    task, generator_result_queue=task_result_queue
                 ),
                 output_queue=output_queue,
             )
@@ -486,6 +491,7 @@ class WorkerPool:
                     aiter_until_complete, event_loop
                 ),
             )
+            result_queues[task.state] = task_result_queue
             running_tasks.append(task)
         while not output_queue.empty():
           batch_cnt += 1
@@ -509,6 +515,9 @@ class WorkerPool:
                 new_failed_tasks.append(task)
             else:
               finished_cnt += 1
+              task_result_queue = result_queues.pop(task.state)
+              while not task_result_queue.empty():
+                generator_result_queue.put(task_result_queue.get())
           elif task.is_alive:
             still_running_tasks.append(task)
           else:
@@ -521,6 +530,7 @@ class WorkerPool:
         for task in timeout_tasks:
           if (state := task.state) is not None:
             state.cancel()
+            result_queues.pop(state, None)
         if new_failed_tasks:
           # Failed tasks likely caused by non-transient error, unretriable.
           logging.error(
